@@ -16,7 +16,7 @@ fn execs_per_scenario(ctx: &Ctx) -> usize {
 pub fn sections(ctx: &Ctx) -> Vec<(&'static str, u64)> {
     let w1 = w1_scenarios(&ctx.corpus, true).len() as u64;
     let (w2, w3, w4) = match ctx.tier {
-        Tier::Quick => (400, 100, 200),
+        Tier::Quick => (400, 160, 200),
         Tier::Thorough => (10_000, 2_000, 5_000),
     };
     let w5 = match ctx.tier {
@@ -55,8 +55,25 @@ pub fn cases(ctx: &Ctx, section: &str, i: u64) -> Vec<Case> {
         }
         "w3" => {
             // Generated include graphs, fault free, through compile()
-            let g = crate::w3::generate(&mut rng.sub("w3"), crate::w3::Mode::Hostile, crate::w3::Form::Compile);
-            let task = crate::w3::compile_task(&g, &mut rng.sub("task"));
+            // (odd units: bare token lists observed through the preprocess API, whose result
+            // includes the file:line:col of every token - the table diagnostics are made from)
+            let (g, task) = if i % 2 == 0 {
+                let g = crate::w3::generate(
+                    &mut rng.sub("w3"),
+                    crate::w3::Mode::Hostile,
+                    crate::w3::Form::Compile,
+                );
+                let task = crate::w3::compile_task(&g, &mut rng.sub("task"));
+                (g, task)
+            } else {
+                let g = crate::w3::generate(
+                    &mut rng.sub("w3"),
+                    crate::w3::Mode::Hostile,
+                    crate::w3::Form::Pre,
+                );
+                let task = crate::w3::preprocess_task(&g);
+                (g, task)
+            };
             vec![det_case(
                 &format!("W3:graph#{i}"),
                 g.fs.clone(),
